@@ -41,6 +41,11 @@ func (p Proof) Marshal() string {
 func (p *Proof) Unmarshal(data []byte) error {
 	const delim = "\n"
 	s := string(data)
+	// The empty proof marshals to the empty string.
+	if len(s) == 0 {
+		(*p) = Proof{}
+		return nil
+	}
 	if !strings.HasSuffix(s, delim) {
 		return errors.New("data should have trailing newline on last hash too")
 	}
